@@ -746,7 +746,9 @@ def gen_history(rng, n_steps, flavour, allow_d8=False):
         H, W = len(mask), len(mask[0])
         per = KINDS[kind].per
         if kind == "vis":
-            n = rng.randint(2, 5); shape = [n]; v = vals(2 * n); dt = "complex"
+            # non-zero parts only: -x would produce IEEE negative zeros, which arctan2 (phases) tells apart and the integer
+            # model cannot represent
+            n = rng.randint(2, 5); shape = [n]; v = [rng.choice([-1, 1]) * rng.randint(1, 9) for _ in range(2 * n)]; dt = "complex"
         elif kind == "mask":
             shape = [H, W]; v = [int(b) for r in mask for b in r]; dt = "bool"
         else:
@@ -828,7 +830,7 @@ def gen_history(rng, n_steps, flavour, allow_d8=False):
                 if o["shape"][0] >= 2: cands.append(("slice", j, None, 2))
             H, W = (len(o["mask"]), len(o["mask"][0])) if o["mask"] else (0, 0)
             allfalse = o["mask"] is not None and all(not b for r in o["mask"] for b in r)
-            if o["kind"] in ("array", "dataset") and not o["sliced"] and H >= 3 and W >= 3 and (o["native"] or allfalse):
+            if o["kind"] in ("array", "dataset") and not o["sliced"] and H >= 3 and W >= 3:
                 if not all(all(r[1:W - 1]) for r in o["mask"][1:H - 1]): cands.append(("trim", j, None, 3 if o["kind"] == "dataset" else 1))
             if o["kind"] == "array" and not o["sliced"] and H >= 3 and W >= 3: cands.append(("alias", j, None, 4 if flavour == "dataset" else 0.3))
             if o["kind"] in ("array", "grid", "kernel", "vector") and not o["sliced"]: cands.append(("reconstruct", j, None, 1))
